@@ -230,6 +230,9 @@ def run(ctx):
                        'C01.roundtrip_concrete the Lean reader J.loads is compared with json.loads on the JSON text '
                        'of every encoded frame',
                        'str.isdigit()/int() on non-ASCII characters: supplied per run as a table'])
+    # the codec model's constants (packet types, digit limits) are the literals of packet.py as it is now
+    C.audit_extra(ctx, 'Glue', ['packet_types_eq', 'packet_names_consistent', 'attDigitLimit_eq',
+                                'idDigitLimit_eq', 'header_guards', 'scanners_accept'])
     rng = ctx.rng
     n_enc = ctx.scale(1500, 30000)
     n_mut = ctx.scale(1500, 30000)
